@@ -547,6 +547,14 @@ func mkTarget(allow, deny, authScheme string) *route.Target {
 	return route.VerifAddTarget("svc", upstreamURL, opts)
 }
 
+// sharedProxy is ONE HTTPProxy (one loaded auth scheme set, one target) serving a whole
+// request history; hits counts the upstream round trips so far.
+type sharedProxy struct {
+	p      *proxy.HTTPProxy
+	hits   int
+	target *route.Target
+}
+
 type rtFunc func(*http.Request) (*http.Response, error)
 
 func (f rtFunc) RoundTrip(r *http.Request) (*http.Response, error) { return f(r) }
@@ -780,7 +788,6 @@ func main() {
 			return
 		}
 		al, dn, keys, other := route.VerifAccessRules(t)
-		_ = keys
 		if other != 0 {
 			run.Violation(run.NextID(), "rule map has entries other than *net.IPNet under allow:ip / deny:ip", map[string]interface{}{"rule": g, "keys": keys})
 			return
@@ -797,7 +804,22 @@ func main() {
 				sample = append(sample, fmt.Sprintf("%s(len %d): denied=%v ref_admits=%v", a, len(ip), d, ra))
 			}
 		}
-		rules := fmt.Sprintf("{| r_allow := %s; r_deny := %s |}", coqNets(al), coqNets(dn))
+		// a key of the rule map may exist with an empty list (denyAll): None = key absent
+		hasKey := func(k string) bool {
+			for _, x := range keys {
+				if x == k {
+					return true
+				}
+			}
+			return false
+		}
+		optNets := func(k string, l []*net.IPNet) string {
+			if !hasKey(k) {
+				return vh.None
+			}
+			return vh.Some(coqNets(l))
+		}
+		rules := fmt.Sprintf("{| r_allow := %s; r_deny := %s |}", optNets("allow:ip", al), optNets("deny:ip", dn))
 		run.Add("rule/"+g.class, vh.App("CRule", coqEnv(g.allow, g.deny, tb, &ref), rules, vh.Bool(perr), vh.List(probes)),
 			map[string]interface{}{"allow": g.allow, "deny": g.deny, "impl_allow": fmt.Sprint(al), "impl_deny": fmt.Sprint(dn), "impl_err": perr, "probes": sample})
 	}
@@ -837,6 +859,8 @@ func main() {
 		cred     credGen
 		remote   string
 		xff      []string
+		shared   *sharedProxy // non-nil: a step of a request history on one proxy / scheme set
+		note     string
 	}
 	addHTTP := func(class string, in httpIn) {
 		if !ascii(in.g.allow, in.g.deny, in.remote, in.authName) || !ascii(in.xff...) {
@@ -903,6 +927,11 @@ func main() {
 			},
 			AuthSchemes: schemes,
 		}
+		before := 0
+		if in.shared != nil {
+			p, t, before = in.shared.p, in.shared.target, in.shared.hits
+		}
+		_ = t
 		req := httptest.NewRequest("GET", "http://svc.example/", nil)
 		req.RemoteAddr = in.remote
 		if len(in.xff) > 0 {
@@ -917,6 +946,9 @@ func main() {
 			run.Violation(id, fmt.Sprintf("ServeHTTP panicked: %v", v), in.remote)
 			return
 		}
+		if in.shared != nil {
+			hits = in.shared.hits - before
+		}
 		xs := make([]string, len(in.xff))
 		for i, v := range in.xff {
 			xs[i] = vh.HxS(v)
@@ -924,7 +956,7 @@ func main() {
 		run.Add("http/"+class, vh.App("CHttp", coqEnv(in.g.allow, in.g.deny, tb, &ref), vh.Bool(in.present), vh.HxS(in.authName), coqSchemes(in.cred),
 			vh.HxS(in.remote), split, vh.List(xs), vh.List(semItems), vh.Bool(refAdmit), vh.N(rec.Code), vh.N(hits)),
 			map[string]interface{}{"allow": in.g.allow, "deny": in.g.deny, "auth": in.authName, "cred": in.cred.note, "remote": in.remote, "xff": in.xff,
-				"status": rec.Code, "upstream_hits": hits, "ref_admit": refAdmit})
+				"status": rec.Code, "upstream_hits": hits, "ref_admit": refAdmit, "history": in.note})
 	}
 	genXFF := func(cands []netip.Addr, peerText string) []string {
 		line := func() string {
@@ -1101,5 +1133,114 @@ func main() {
 		a := netip.MustParseAddr(d.peer)
 		addTCP("directed", d.g, true, &net.TCPAddr{IP: netIP(r, a), Port: 4711}, &a)
 	}
+	// ---------------- 4. request HISTORIES against one HTTPProxy / one loaded scheme set ----------------
+	// Target.Authorized is a function of (scheme table, credentials): the answer to a request must
+	// not depend on the requests served before it (C12_auth_history_independent).  A good login is
+	// followed by every re-split of user+password (all split points, empty user / empty password),
+	// case variants, the good pair again, wrong pairs; optionally the htpasswd file is rewritten
+	// (refresh enabled) and the old pair is tried again.  Every step is judged as an independent
+	// request with the by-construction verdict of the htpasswd content in force.
+	swapCase := func(s string) string {
+		b := []byte(s)
+		for i, c := range b {
+			switch {
+			case c >= 'a' && c <= 'z':
+				b[i] = c - 32
+			case c >= 'A' && c <= 'Z':
+				b[i] = c + 32
+			}
+		}
+		return string(b)
+	}
+	nHist := run.Scale(10, 80)
+	for h := 0; h < nHist; h++ {
+		names := []string{"alice", "bob", "carol", "dave", "al", "alicia", "x"}
+		r.Shuffle(len(names), func(i, j int) { names[i], names[j] = names[j], names[i] })
+		us := make([]user, 2+r.Intn(2))
+		for i := range us {
+			us[i] = user{name: names[i], pw: pws(1 + r.Intn(9))}
+		}
+		file := filepath.Join(dir, fmt.Sprintf("hist%d.htpasswd", h))
+		write(file, us)
+		rewrite := h%4 == 3
+		cfg := config.BasicAuth{Realm: "h", File: file}
+		if rewrite {
+			cfg.Refresh = 20 * time.Millisecond
+		}
+		hs, err := auth.LoadAuthSchemes(map[string]config.AuthScheme{"mybasic": {Name: "mybasic", Type: "basic", Basic: cfg}})
+		if err != nil {
+			panic(err)
+		}
+		sp := &sharedProxy{target: mkTarget("", "", "mybasic")}
+		sp.p = &proxy.HTTPProxy{
+			Transport: rtFunc(func(req *http.Request) (*http.Response, error) {
+				sp.hits++
+				return &http.Response{StatusCode: 200, Proto: "HTTP/1.1", ProtoMajor: 1, ProtoMinor: 1, Header: http.Header{},
+					Body: io.NopCloser(strings.NewReader("ok")), Request: req}, nil
+			}),
+			Lookup:      func(*http.Request) *route.Target { return sp.target },
+			AuthSchemes: hs,
+		}
+		cur := us // htpasswd content in force
+		step := 0
+		try := func(note, header string) {
+			c := credGen{header: header, note: note, right: map[string]bool{"mybasic": false}}
+			req := &http.Request{Header: http.Header{}}
+			if header != "" {
+				req.Header.Set("Authorization", header)
+			}
+			name, pw, ok := req.BasicAuth()
+			for _, x := range cur {
+				if ok && x.name == name && x.pw == pw {
+					c.right["mybasic"] = true
+				}
+			}
+			addHTTP("auth-history", httpIn{present: true, authName: "mybasic", cred: c, remote: "192.0.2.7:4711", shared: sp,
+				note: fmt.Sprintf("history %d step %d: %s", h, step, note)})
+			step++
+		}
+		pair := func(note, u, pw string) { try(fmt.Sprintf("%s %q/%q", note, u, pw), basicHeader(u, pw)) }
+		if r.Intn(2) == 0 { // cold scheme: a colliding pair BEFORE any login
+			cat := us[0].name + us[0].pw
+			i := r.Intn(len(cat) + 1)
+			if i != len(us[0].name) {
+				pair("cold re-split", cat[:i], cat[i:])
+			}
+		}
+		for _, u := range us {
+			pair("good login", u.name, u.pw)
+			cat := u.name + u.pw
+			for i := 0; i <= len(cat); i++ {
+				pair("re-split", cat[:i], cat[i:])
+			}
+			pair("case variant", strings.ToUpper(u.name), u.pw)
+			pair("case variant", u.name, swapCase(u.pw))
+			pair("case variant", swapCase(u.name), swapCase(u.pw))
+			pair("good again", u.name, u.pw)
+			pair("wrong password", u.name, u.pw+"x")
+			pair("wrong password", u.name, us[(h+1)%len(us)].pw+"y")
+			pair("unknown user", u.name+"x", u.pw)
+			try("no header", "")
+			try("malformed header", "Basic "+base64.StdEncoding.EncodeToString([]byte(cat)))
+		}
+		if rewrite {
+			old := us[0]
+			nu := append([]user(nil), us...)
+			nu[0].pw = old.pw + "N"
+			nu = append(nu[:1], nu[2:]...) // second user removed
+			time.Sleep(30 * time.Millisecond)
+			write(file, nu)
+			time.Sleep(600 * time.Millisecond) // refresh ticker (20 ms) picks the new file up
+			cur = nu
+			pair("old pair after rewrite", old.name, old.pw)
+			pair("removed user after rewrite", us[1].name, us[1].pw)
+			pair("new pair after rewrite", nu[0].name, nu[0].pw)
+			cat := old.name + old.pw
+			for i := 0; i <= len(cat); i++ {
+				pair("re-split of the old pair after rewrite", cat[:i], cat[i:])
+			}
+		}
+	}
+
 	run.Finish(preamble, run.Scale(140, 700))
 }
